@@ -104,9 +104,15 @@ package rtpmpeg1video
 
 // C08: what the decoder keeps between calls stays within the maximum frame size, for every
 // packet sequence (the partial slice being reassembled and the slices of the current frame).
+//@ ufun sumlen(s [][]byte, n int) int = ite(n <= 0, 0, sumlen(s, n-1) + len(s[n-1]))
+//@   lemma[n; t [][]byte] (forall k :: 0 <= k && k < n ==> len(s[k]) == len(t[k])) ==> sumlen(s, n) == sumlen(t, n)
+//@   trigger sumlen(s, n)
+//@   trigger sumlen(t, n)
 //@ typeinv Decoder d
 //@   inv[C08] 0 <= d.fragmentsSize && d.fragmentsSize <= 1048576
 //@   inv[C08] 0 <= d.sliceBufferSize && d.sliceBufferSize <= 1048576
+//@   inv[C08] d.fragmentsSize == sumlen(d.fragments, len(d.fragments))
+//@   inv[C08] d.sliceBuffer == nil || d.fragments == nil || ref(d.sliceBuffer) != ref(d.fragments)
 
 //@ func joinFragments
 //@   opt safety-tag=C08
@@ -119,6 +125,7 @@ package rtpmpeg1video
 //@ func (d *Decoder) resetFragments
 //@   opt typeinv=off
 //@   ensures[C08] d.fragmentsSize == 0 && len(d.fragments) == 0
+//@   ensures[C08] ref(d.fragments) == old(ref(d.fragments)) && (d.fragments == nil) == old(d.fragments == nil)
 //@   modifies d.fragments, d.fragmentsSize
 
 //@ func (d *Decoder) decodeSlice
